@@ -2,6 +2,8 @@
    Only the directives of ExtrOcamlBasic are used (bool, option, unit, list, prod, sumbool, sumor);
    N, Z, positive and nat stay the extracted inductive datatypes. *)
 From Coq Require Import ExtrOcamlBasic.
-From EDP Require Import Base.Bytes Dist.Fragment.
+From EDP Require Import Base.Bytes Dist.Fragment Dist.PidAlloc Dist.Framing.
 Extraction Blacklist String List Nat.
-Extraction "model.ml" Fragment.run Fragment.fev N.of_nat N.to_nat N.add N.mul.
+Extraction "model.ml" Fragment.run Fragment.fev N.of_nat N.to_nat N.add N.mul
+  PidAlloc.allocate PidAlloc.make_ref
+  Framing.read_all Framing.write_framed Framing.frame.
